@@ -4,6 +4,7 @@ package main
 // module under -repo. Nothing is cached between invocations.
 
 import (
+	"bytes"
 	"fmt"
 	"go/token"
 	"go/types"
@@ -32,6 +33,11 @@ type Prog struct {
 	lockInfo  *LockInfo
 	inCallSiteBound int
 	immutableField map[string]bool
+	freshFn        map[*ssa.Function]bool
+	inlinedSites, removedHelpers []string // variant only: what InlineHelpers did
+	Folded         int // branches on constants removed at load time
+	constFuncG     map[*ssa.Global]*ssa.Function
+	constFuncF     map[string]*ssa.Function
 	onlyWriter     map[*ssa.Store]bool
 	removed   map[*ssa.Function]bool // helpers that the variant inlined everywhere (dead code in the variant)
 	Variant   string // "" = the program as written; otherwise the name of the equivalent variant (variant.go)
@@ -117,6 +123,22 @@ func loadProg(dir, goarch string) (*Prog, error) {
 		}
 	}
 	pr.collectFuncs()
+	// branches on a constant (if debugAssertions && ... with const debugAssertions = false) are not control flow: the
+	// SSA builder keeps them for fidelity to the source, the analysis removes the dead side
+	folded := 0
+	for _, f := range pr.Funcs {
+		if n := ssa.FoldConstantBranches(f); n > 0 {
+			folded += n
+			var buf bytes.Buffer
+			if e := ssa.FinishInlining(f, &buf); e != nil {
+				return nil, fmt.Errorf("constant branch folding in %s: %v: %s", f, e, buf.String())
+			}
+		}
+	}
+	pr.Folded = folded
+	if folded > 0 {
+		pr.computeAddrTaken()
+	}
 	return pr, nil
 }
 
